@@ -1094,6 +1094,57 @@ func (g *c13Gen) metaCase(id int) *c13Case {
 	return c
 }
 
+// The systematic part of the handshake-metadata family (independent of the seed, part of EVERY run): every prefix
+// (length 0 .. len) of a few well-formed metadata bodies -- so that every way a body can end inside a length field
+// or inside a path is present --, once handed to extractShmMetadata directly and once sent through the real
+// server-side handshake as the body of a V2 file event, a V3 file event and a V3 memfd event whose Length announces
+// exactly the truncated body.
+func c13MetaBodies() [][]byte {
+	return [][]byte{
+		c13Meta([]byte("abc"), []byte("de")),
+		c13Meta([]byte("/nonexistent_verif_c13/q"), []byte("/nonexistent_verif_c13/b")),
+		c13Meta(nil, nil),
+		c13Meta(nil, []byte("x")),
+		c13Meta([]byte("y"), nil),
+	}
+}
+
+func c13MetaPrefixCases(id int) []*c13Case {
+	var cs []*c13Case
+	for _, body := range c13MetaBodies() {
+		for l := 0; l <= len(body); l++ {
+			cs = append(cs, &c13Case{ID: id + len(cs), Kind: "meta", Class: "meta:prefix", Bytes: hex.EncodeToString(body[:l])})
+		}
+	}
+	return cs
+}
+
+func c13HsPrefixCases(id int) []*c13Case {
+	var cs []*c13Case
+	for bi, body := range c13MetaBodies()[:3] {
+		for l := 0; l <= len(body); l++ {
+			for v := 0; v < 3; v++ {
+				if bi == 1 && l%3 != v { // the long body: each prefix once, the variants in turn
+					continue
+				}
+				var data []byte
+				ver, typ, class := uint8(2), uint8(typeShareMemoryByFilePath), "hs:prefix-v2-file"
+				if v > 0 {
+					data = c13Header(headerSize, magicNumber, 3, uint8(typeExchangeProtoVersion))
+					ver, class = 3, "hs:prefix-v3-file"
+					if v == 2 {
+						typ, class = uint8(typeShareMemoryByMemfd), "hs:prefix-v3-memfd"
+					}
+				}
+				data = append(data, c13Header(uint32(headerSize+l), magicNumber, ver, typ)...)
+				data = append(data, body[:l]...)
+				cs = append(cs, &c13Case{ID: id + len(cs), Kind: "hs", Class: class, Bytes: hex.EncodeToString(data)})
+			}
+		}
+	}
+	return cs
+}
+
 func (g *c13Gen) hsCase(id int) *c13Case {
 	r := g.r
 	c := &c13Case{ID: id, Kind: "hs"}
@@ -1382,14 +1433,20 @@ func TestVerif_C13(t *testing.T) {
 		c13Features(c, data)
 		out.emit(c)
 	}
+	metaCases := c13MetaPrefixCases(10 * n)
 	for i := 0; i < nMeta; i++ {
-		c := g.metaCase(n + i)
+		metaCases = append(metaCases, g.metaCase(n+i))
+	}
+	for _, c := range metaCases {
 		c13RunMeta(c)
 		out.emit(c)
 	}
 	childDone := map[string]bool{}
+	hsCases := c13HsPrefixCases(11 * n)
 	for i := 0; i < nHs; i++ {
-		c := g.hsCase(n + nMeta + i)
+		hsCases = append(hsCases, g.hsCase(n+nMeta+i))
+	}
+	for i, c := range hsCases {
 		data, _ := hex.DecodeString(c.Bytes)
 		if c13HsTooBig(data) {
 			c.Class += "(skipped: would allocate > 4 MiB)"
